@@ -172,7 +172,14 @@ func canon(v reflect.Value) *Tree {
 		}
 		switch v.Type().Elem() {
 		case tURI:
-			return leaf("uri(" + strconv.Quote(v.Interface().(*lime.URI).String()) + ")")
+			// the text the type prints, and (read off the parsed URL it wraps, so that the text
+			// itself is under test too) its path, query and fragment
+			parts := ""
+			if f := v.Elem().Field(0); f.Kind() == reflect.Ptr && !f.IsNil() {
+				u := f.Elem()
+				parts = " path=" + strconv.Quote(u.FieldByName("Path").String()) + " query=" + strconv.Quote(u.FieldByName("RawQuery").String()) + " fragment=" + strconv.Quote(u.FieldByName("Fragment").String())
+			}
+			return leaf("uri(" + strconv.Quote(v.Interface().(*lime.URI).String()) + parts + ")")
 		case tUserinfo:
 			return leaf("userinfo(" + strconv.Quote(v.Interface().(*url.Userinfo).String()) + ")")
 		}
